@@ -311,6 +311,14 @@ func ruleBuildCleanup(w *World, r *Report, rule string) {
 			if rcv, k, ok := isCloseCall(info, c); ok && k == "provider" && objOf(info, rcv) == pObj {
 				gen = append(gen, "closed")
 			}
+			// handed to a private helper that closes it on every path (abortBuild(p, …))
+			if cal := callee(info, c); cal != nil && !cal.Exported() && w.Decls[cal] != nil {
+				for i, a := range c.Args {
+					if objOf(info, a) == pObj && helperMustCloseParam(w, w.Decls[cal], i, "provider") {
+						gen = append(gen, "closed")
+					}
+				}
+			}
 		}
 		return
 	}})
@@ -541,4 +549,39 @@ func ruleCreateStores(w *World, r *Report, rule string) {
 	if n < 5 {
 		r.Fail(rule, ro.createInstance.Name()+"#success-exits", ro.createInstance.Decl.Pos(), "expected at least 5 success exits (instance value, initializer, result object, multi-return, plain), found %d", n)
 	}
+}
+
+// helperMustCloseParam: every normal exit of h has called Close on its idx-th parameter.
+func helperMustCloseParam(w *World, h *FuncInfo, idx int, kind string) bool {
+	info := h.Pkg.TypesInfo
+	var params []types.Object
+	for _, f := range h.Decl.Type.Params.List {
+		for _, nm := range f.Names {
+			params = append(params, info.Defs[nm])
+		}
+	}
+	if idx >= len(params) {
+		return false
+	}
+	p := params[idx]
+	fl := w.FlowOf(h)
+	sol := fl.Solve(Spec{Must: true, Node: func(n ast.Node, in Facts) (gen, kill []string) {
+		for _, c := range callsIn(n, false) {
+			if rcv, k, ok := isCloseCall(info, c); ok && k == kind && objOf(info, rcv) == p {
+				gen = append(gen, "closed")
+			}
+		}
+		return
+	}})
+	n := 0
+	for _, ex := range fl.Exits() {
+		if ex.Panic {
+			continue
+		}
+		n++
+		if !sol.AtExit(ex).Has("closed") {
+			return false
+		}
+	}
+	return n > 0
 }
